@@ -44,7 +44,11 @@ def same(a, b):
     if a[0] != b[0]:
         return False
     if a[0] == "num":
-        return a[1] == b[1] and np.array_equal(a[2], b[2], equal_nan=True)
+        return a[1] == b[1] and a[2].dtype == b[2].dtype and np.array_equal(a[2], b[2], equal_nan=a[2].dtype.kind in "fc")
+    if a[0] == "seq":
+        return len(a[1]) == len(b[1]) and all(same(x, y) for x, y in zip(a[1], b[1]))
+    if a[0] == "dict":
+        return a[1].keys() == b[1].keys() and all(same(a[1][k], b[1][k]) for k in a[1])
     return a == b
 
 
@@ -283,6 +287,226 @@ def poisson_entries():
             yield f"poisson.solve_poisson_{which}/ode_params={label}", (lambda which=which, params=params: run(which, dict(params)))
 
 
+# ----------------------------------------------------------------------------- concrete battery: the float code end to end, real SciPy
+def concrete_entries():
+    """name -> thunk returning (inputs, call, callbacks).  The real float code with the real SciPy drivers; every array/list/dict argument
+    is write-protected / deep-copied and compared bit for bit afterwards.  One concrete path each: the complement of the symbolic entries
+    for code the engine cannot execute (constructors on shipped data, splines, integrators)."""
+    import warnings
+    warnings.simplefilter("ignore")
+    from grid.atomgrid import AtomGrid
+    from grid.molgrid import MolGrid
+    from grid.basegrid import OneDGrid, Grid
+    from grid.onedgrid import GaussLegendre, UniformInteger
+    from grid.rtransform import BeckeRTransform, InverseRTransform, LinearFiniteRTransform, PowerRTransform
+    from grid.becke import BeckeWeights
+    import grid.utils as ut, grid.coulomb as co, grid.poisson as po, grid.ode as ode, grid.cubic as cu
+
+    def rgrid(n=6):
+        return BeckeRTransform(0.0, 1.5).transform_1d_grid(GaussLegendre(n))
+
+    def atom(**kw):
+        return AtomGrid(rgrid(), degrees=[3, 5, 5, 7, 5, 3], **kw)
+
+    def ent_atom(what):
+        rg = rgrid()
+        degs, sizes = [3, 5, 5, 7, 5, 3], [6, 14, 14, 26, 14, 6]
+        ctr = ro(np.array([0.1, -0.2, 0.3]))
+        rs, ds = ro(np.array([0.5, 1.0, 1.5])), ro(np.array([3, 5, 7, 3]))
+        if what == "init/degrees":
+            inp = dict(degrees=degs, center=ctr, rpoints=ro(rg.points), rweights=ro(rg.weights))
+            return inp, (lambda: AtomGrid(OneDGrid(inp["rpoints"], inp["rweights"], (0, np.inf)), degrees=degs, center=ctr)), []
+        if what == "init/sizes":
+            inp = dict(sizes=sizes, center=ctr)
+            return inp, (lambda: AtomGrid(rg, sizes=sizes, center=ctr, rotate=7)), []
+        if what == "from_pruned":
+            inp = dict(r_sectors=rs, d_sectors=ds, center=ctr)
+            return inp, (lambda: AtomGrid.from_pruned(rg, 1.0, r_sectors=rs, d_sectors=ds, center=ctr)), []
+        if what == "from_pruned/lists":
+            rl, dl = [0.5, 1.0, 1.5], [3, 5, 7, 3]
+            inp = dict(r_sectors=rl, d_sectors=dl)
+            return inp, (lambda: AtomGrid.from_pruned(rg, 1.0, r_sectors=rl, d_sectors=dl)), []
+        if what == "from_pruned/sizes":
+            sl = ro(np.array([6, 14, 26, 6]))
+            inp = dict(r_sectors=rs, s_sectors=sl)
+            return inp, (lambda: AtomGrid.from_pruned(rg, 1.0, r_sectors=rs, s_sectors=sl)), []
+        if what == "from_preset":
+            inp = dict(center=ctr)
+            return inp, (lambda: AtomGrid.from_preset(atnum=8, preset="coarse", rgrid=rg, center=ctr)), []
+        ag = AtomGrid(rg, degrees=degs, center=np.array([0.1, -0.2, 0.3]))
+        fv = ro(np.exp(-np.sum((ag.points - ag.center) ** 2, axis=1)) * (1 + ag.points[:, 0]))
+        q = ro(np.array([[0.3, 0.1, 0.2], [0.1, -0.2, 0.3], [1.0, 1.0, -1.0]]))
+        inp = dict(func_vals=fv, points=q, center=ctr)
+        calls = {"integrate": lambda: ag.integrate(fv, fv), "integrate_angular_coordinates": lambda: ag.integrate_angular_coordinates(fv),
+                 "spherical_average": lambda: ag.spherical_average(fv)(np.array([0.2, 0.7])), "radial_component_splines": lambda: ag.radial_component_splines(fv),
+                 "interpolate": lambda: [ag.interpolate(fv)(q, deriv=d) for d in (0, 1)] + [ag.interpolate(fv)(q, deriv=1, deriv_spherical=True), ag.interpolate(fv)(q, deriv=1, only_radial_deriv=True)],
+                 "convert_cartesian_to_spherical": lambda: (ag.convert_cartesian_to_spherical(q, ctr), ag.convert_cartesian_to_spherical(q), ag.convert_cartesian_to_spherical()),
+                 "get_shell_grid": lambda: [ag.get_shell_grid(i, r_sq=b) for i in (0, 3) for b in (True, False)], "moments": lambda: ag.moments(2, q[:2], fv, "pure"),
+                 "get_localgrid": lambda: ag.get_localgrid(ctr, 0.8)}
+        return inp, calls[what], []
+
+    def mol_parts():
+        atnums = ro(np.array([8, 1, 1]))
+        atcoords = ro(np.array([[0.0, 0.0, 0.2], [0.0, 1.4, -0.9], [0.0, -1.4, -0.9]]))
+        return atnums, atcoords
+
+    def ent_mol(what):
+        atnums, atcoords = mol_parts()
+        rg = rgrid(5)
+        if what in ("from_size", "from_pruned", "from_preset", "from_preset/list"):
+            inp = dict(atnums=atnums, atcoords=atcoords)
+            if what == "from_size":
+                return inp, (lambda: MolGrid.from_size(atnums, atcoords, 14, rg, BeckeWeights(), store=True)), []
+            if what == "from_pruned":
+                rs = [ro(np.array([0.5, 1.0])), ro(np.array([0.4])), ro(np.array([0.4]))]
+                ds = [ro(np.array([3, 5, 3])), ro(np.array([3, 5])), ro(np.array([3, 5]))]
+                rad = ro(np.array([1.0, 0.6, 0.6]))
+                inp.update(r_sectors=rs, d_sectors=ds, radius=rad)
+                return inp, (lambda: MolGrid.from_pruned(atnums, atcoords, rad, rs, ds, rgrid=rg, aim_weights=BeckeWeights(), store=True)), []
+            if what == "from_preset/list":
+                rgs = [rg, rg, rg]
+                inp.update(rgrids=rgs)
+                return inp, (lambda: MolGrid.from_preset(atnums, atcoords, "coarse", rgs, BeckeWeights(), store=True)), []
+            return inp, (lambda: MolGrid.from_preset(atnums, atcoords, "coarse", rg, BeckeWeights(), store=True)), []
+        ags = [AtomGrid(rg, degrees=[5], center=c) for c in np.array(atcoords)]
+        if what in ("init/callable", "init/array", "init/hirshfeld"):
+            n = sum(a.size for a in ags)
+            aim = ro(np.linspace(0.2, 1.0, n))
+            inp = dict(atnums=atnums, atgrids=ags, aim_weights=aim, atom_points=[ro(a.points.copy()) for a in ags])
+            from grid.hirshfeld import HirshfeldWeights
+            w = dict([("init/callable", BeckeWeights(order=3)), ("init/array", aim), ("init/hirshfeld", HirshfeldWeights())])[what]
+            def call():
+                mg = MolGrid(atnums, ags, w, store=True)
+                return [np.array_equal(a.points, p) for a, p in zip(ags, inp["atom_points"])]
+            return inp, call, []
+        mg = MolGrid(atnums, ags, BeckeWeights(), store=True)
+        fv = ro(np.exp(-np.sum(mg.points ** 2, axis=1)))
+        q = ro(np.array([[0.3, 0.1, 0.2], [0.0, 0.0, 0.2], [1.0, 1.0, -1.0]]))
+        inp = dict(func_vals=fv, points=q)
+        calls = {"integrate": lambda: mg.integrate(fv), "interpolate": lambda: [mg.interpolate(fv)(q, deriv=d) for d in (0, 1)], "get_atomic_grid": lambda: [mg.get_atomic_grid(i) for i in range(3)],
+                 "getitem": lambda: [mg[i] for i in range(3)], "get_localgrid": lambda: mg.get_localgrid(q[0], 0.9),
+                 "dipole": lambda: ut.dipole_moment_of_molecule(mg, fv, atcoords, atnums), "moments": lambda: mg.moments(1, q[:1], fv, "cartesian")}
+        inp.update(atcoords=atcoords, atnums=atnums)
+        return inp, calls[what], []
+
+    def ent_poisson(what):
+        atnums, atcoords = mol_parts()
+        tf = InverseRTransform(BeckeRTransform(1e-5, 1.5))
+        rg = BeckeRTransform(1e-5, 1.5).transform_1d_grid(GaussLegendre(30))
+        if what.startswith("atom"):
+            g = AtomGrid(rg, degrees=[5])
+            an, ac = ro(np.array([8])), ro(np.zeros((1, 3)))
+        else:
+            g = MolGrid.from_size(atnums, atcoords, 26, rg, BeckeWeights(), store=True)
+            an, ac = atnums, atcoords
+        fv = ro(np.exp(-np.sum(g.points ** 2, axis=1)))
+        q = ro(np.array([[0.3, 0.1, 0.2], [1.0, 1.0, -1.0]]))
+        opts = dict(tol=1e-2, max_nodes=20000)
+        ipar = dict(rtol=1e-4, atol=1e-4)
+        alphas = ro(np.array([0.5, 2.0, 8.0]))
+        inp = dict(func_vals=fv, points=q, ode_params=opts, ivp_params=ipar, atnums=an, atcoords=ac, alphas=alphas)
+        kind = what.split("/")[1]
+        calls = {"bvp": lambda: po.solve_poisson_bvp(g, fv, tf, include_origin=True, remove_large_pts=10.0, ode_params=opts)(q), "bvp/remove_large_pts": lambda: po.solve_poisson_bvp(g, fv, tf, remove_large_pts=3.0, include_origin=False)(q),
+                 "ivp": lambda: po.solve_poisson_ivp(g, fv, tf, r_interval=(3.0, 1e-4), ode_params=ipar)(q), "laplacian": lambda: po.interpolate_laplacian(g, fv)(q),
+                 "robust": lambda: __import__("grid.robust_poisson", fromlist=["x"]).solve_poisson_robust(g, fv, tf, an, ac, remove_large_pts=10.0, ode_params=opts)(q),
+                 "robust_split2": lambda: __import__("grid.robust_poisson", fromlist=["x"]).solve_poisson_robust(g, fv, tf, an, ac, split2=True, alphas_basis=alphas, remove_large_pts=10.0, ode_params=opts)(q)}
+        return inp, calls[what.split("/", 1)[1]], []
+
+    def ent_ode(what, mode):
+        x = ro(np.linspace(0.0, 1.0, 12))
+        mk = lambda xx: np.sin(xx) + 2.0
+        fx = Cached(mode, mk)
+        a1 = Cached("fresh", lambda xx: 1.0 + 0.0 * xx)
+        coeffs = [a1, 0.5, 1.0]
+        cf = ro(np.array([1.0, 0.5, 1.0]))
+        bd = [(0, 0, 0.0), (1, 0, 1.0)]
+        y0 = ro(np.array([0.0, 1.0]))
+        tf = LinearFiniteRTransform(0.0, 1.0)
+        inp = dict(x=x, bd_cond=bd, y0=y0, coeffs_array=cf, coeffs_list=[0.5, 0.5, 1.0])
+        calls = {"bvp": lambda: ode.solve_ode_bvp(x, fx, coeffs, bd, tol=1e-3)(x), "bvp/array-coeffs": lambda: ode.solve_ode_bvp(x, fx, cf, bd, tol=1e-3, no_derivatives=False)(x),
+                 "bvp/transform": lambda: ode.solve_ode_bvp(ro(np.linspace(-0.9, 0.9, 12)), fx, cf, bd, transform=tf, tol=1e-3)(x[1:-1]),
+                 "ivp": lambda: ode.solve_ode_ivp((0.0, 1.0), fx, coeffs, y0, rtol=1e-4, atol=1e-4)(x), "ivp/array-coeffs": lambda: ode.solve_ode_ivp((0.0, 1.0), fx, cf, y0, rtol=1e-4, atol=1e-4, no_derivatives=True)(x),
+                 "ivp/transform": lambda: ode.solve_ode_ivp((-0.9, 0.9), fx, inp["coeffs_list"], y0, transform=tf, rtol=1e-4, atol=1e-4)(x[1:-1])}
+        return inp, calls[what], [fx, a1]
+
+    def ent_misc(what):
+        q = ro(np.array([[0.3, 0.1, 0.2], [0.0, 0.0, 0.0], [0.0, 0.0, -1.5], [1.0, 1.0, -1.0]]))
+        c = ro(np.array([0.0, 0.0, 0.0]))
+        th, ph = ro(np.array([0.3, 1.2, 4.0])), ro(np.array([0.0, 1.0, np.pi]))
+        sph = ro(np.array([[1.0, 0.3, 0.4], [2.0, 1.3, 2.4]]))
+        cs, cf, al = ro(np.array([[0.0, 0.0, 0.0], [0.0, 0.0, 1.0]])), ro(np.array([1.0, 0.5])), ro(np.array([0.7, 2.0]))
+        r = ro(np.array([0.0, 1e-12, 0.5, 3.0]))
+        inp = dict(points=q, center=c, theta=th, phi=ph, sph=sph, centers=cs, coeffs=cf, alphas=al, r=r)
+        og = Grid(np.array(q), np.ones(4))
+        calls = {"convert_cart_to_sph": lambda: (ut.convert_cart_to_sph(q, c), ut.convert_cart_to_sph(q)), "generate_real_spherical_harmonics": lambda: ut.generate_real_spherical_harmonics(4, th, ph),
+                 "generate_real_spherical_harmonics_scipy": lambda: ut.generate_real_spherical_harmonics_scipy(4, th, ph), "generate_derivative_real_spherical_harmonics": lambda: ut.generate_derivative_real_spherical_harmonics(4, th, ph),
+                 "solid_harmonics": lambda: ut.solid_harmonics(3, sph), "convert_derivative": lambda: ut.convert_derivative_from_spherical_to_cartesian(1.0, 2.0, 3.0, 1.0, 0.3, 0.4),
+                 "coulomb_gaussian_s": lambda: (co.coulomb_gaussian_s(r, 0.8), co.coulomb_gaussian_s(r, 0.8, normalized=False)), "coulomb_gaussian_p": lambda: (co.coulomb_gaussian_p(r, 0.8), co.coulomb_gaussian_p(r, 0.8, False)),
+                 "coulomb_potential": lambda: (co.coulomb_potential(q, cs, cf, al, cs, cf, al), co.coulomb_potential(q, cs, cf, al, normalized=False)),
+                 "Grid.moments/pure-radial": lambda: og.moments(2, q[:2], r, "pure-radial"), "get_cov_radii": lambda: ut.get_cov_radii(ro(np.array([1, 8])))}
+        return inp, calls[what], []
+
+    def ent_cubic(what):
+        g1 = [OneDGrid(np.linspace(-1, 1, n), np.full(n, 2.0 / n), (-1, 1)) for n in (5, 6, 7)]
+        tg = cu.Tensor1DGrids(*g1)
+        fv = ro(np.exp(-np.sum(tg.points ** 2, axis=1)))
+        q = ro(np.array([[0.1, 0.2, 0.3], [-0.5, 0.5, 0.0]]))
+        ug = cu.UniformGrid(np.array([-1.0, -1.0, -1.0]), np.eye(3) * 0.5, np.array([5, 5, 5]))
+        fu = ro(np.exp(-np.sum(ug.points ** 2, axis=1)))
+        idx = ro(np.array([1, 2, 3]))
+        inp = dict(func_vals=fv, points=q, func_uniform=fu, index=idx)
+        calls = {"interpolate": lambda: [tg.interpolate(q, fv), tg.interpolate(q, fv, use_log=True, nu_x=1), tg.interpolate(q, fv, method="linear"), tg.interpolate(q, fv, nu_y=2)],
+                 "uniform.interpolate": lambda: ug.interpolate(q, fu, nu_z=1), "integrate": lambda: (tg.integrate(fv), ug.integrate(fu, fu)),
+                 "index": lambda: (ug.coordinates_to_index(idx), ug.index_to_coordinates(7), tg.coordinates_to_index(tuple(idx))), "closest_point": lambda: (ug.closest_point(q[0], "closest"), ug.closest_point(q[1], "origin"))}
+        return inp, calls[what], []
+
+    for w in ("init/degrees", "init/sizes", "from_pruned", "from_pruned/lists", "from_pruned/sizes", "from_preset", "integrate", "integrate_angular_coordinates", "spherical_average", "radial_component_splines",
+              "interpolate", "convert_cartesian_to_spherical", "get_shell_grid", "moments", "get_localgrid"):
+        yield f"concrete/AtomGrid.{w}", (lambda w=w: ent_atom(w))
+    for w in ("from_size", "from_pruned", "from_preset", "from_preset/list", "init/callable", "init/array", "init/hirshfeld", "integrate", "interpolate", "get_atomic_grid", "getitem", "get_localgrid", "dipole", "moments"):
+        yield f"concrete/MolGrid.{w}", (lambda w=w: ent_mol(w))
+    for g in ("atom", "mol"):
+        for w in ("bvp", "bvp/remove_large_pts", "ivp", "laplacian", "robust", "robust_split2"):
+            if g == "mol" and w == "ivp":
+                continue
+            yield f"concrete/poisson[{g}].{w}", (lambda g=g, w=w: ent_poisson(f"{g}/{w}"))
+    for w in ("bvp", "bvp/array-coeffs", "bvp/transform", "ivp", "ivp/array-coeffs", "ivp/transform"):
+        for mode in ("fresh", "arg"):      # "arg": the right-hand side f(x) = x hands the solver's own mesh array back
+            yield f"concrete/ode.solve_ode_{w}/{mode}", (lambda w=w, mode=mode: ent_ode(w, mode))
+    for w in ("convert_cart_to_sph", "generate_real_spherical_harmonics", "generate_real_spherical_harmonics_scipy", "generate_derivative_real_spherical_harmonics", "solid_harmonics", "convert_derivative",
+              "coulomb_gaussian_s", "coulomb_gaussian_p", "coulomb_potential", "Grid.moments/pure-radial", "get_cov_radii"):
+        yield f"concrete/{w}", (lambda w=w: ent_misc(w))
+    for w in ("interpolate", "uniform.interpolate", "integrate", "index", "closest_point"):
+        yield f"concrete/cubic.{w}", (lambda w=w: ent_cubic(w))
+
+
+def job_concrete(ctx: Ctx, name):
+    thunk = dict(concrete_entries())[name]
+    with unpatched():
+        inputs, call, callbacks = thunk()
+        before = {k: (snap(v), copy.deepcopy(v) if isinstance(v, (list, dict)) else None) for k, v in inputs.items()}
+        err = None
+        try:
+            call()
+        except Exception as ex:     # noqa: a documented rejection must still leave the inputs intact
+            err = f"{type(ex).__name__}: {str(ex)[:200]}"
+        changed = [k for k, v in inputs.items() if not same(before[k][0], snap(v))]
+        for cb in callbacks:
+            for arr_, s0 in cb.handed:
+                if not same(s0, snap(arr_)):
+                    changed.append("array returned by the callback")
+    key = "mutation:" + name
+    if err and ("read-only" in err or "not writeable" in err or "WRITEABLE" in err):
+        ctx.fail(f"{name}: writes into a write-protected input or callback result", err, key=key, replay=lambda m: (True, dict(raised=err)), model={})
+    elif changed:
+        ctx.fail(f"{name}: {', '.join(sorted(set(changed)))} modified by the call", detail=str(sorted(set(changed))), key=key, replay=lambda m: (True, dict(modified=sorted(set(changed)))), model={})
+    elif err:
+        ctx.fail(f"{name}: the battery call itself failed", err, key=key + ":raises", replay=lambda m: (True, dict(raised=err)), model={})
+    else:
+        ctx.ok(f"{name}: inputs, option containers and callback results bit-identical after the call", how="concrete run (one path; not a solver obligation)")
+    ctx.twins_sat += 1
+
+
 def job_entry(ctx: Ctx, name):
     ent = {n: (mods, setup) for n, mods, setup in entries(harness.tier())}
     mods, setup = ent[name]
@@ -338,6 +562,7 @@ def job_poisson(ctx: Ctx, name):
 def jobs(tier):
     js = [Job(n, job_entry, n) for n, _, _ in entries(tier)]
     js += [Job(n, job_poisson, n) for n, _ in poisson_entries()]
+    js += [Job(n, job_concrete, n) for n, _ in concrete_entries()]
     only = os.environ.get("SYMGRID_ONLY")
     return [j for j in js if not only or only in j.name]
 
@@ -350,7 +575,7 @@ def main():
         PROP, res, t0, "DESIGN.md#c20",
         bounds=dict(entry_points=len(js), aliasing="inputs write-protected; the same array passed twice; callbacks returning fresh arrays, their argument, or one cached write-protected array",
                     contents="symbolic (all paths) except the Poisson option-dictionary entries, which run concretely with the ODE drivers stubbed"),
-        outside=["entry points that cannot run under the engine (SciPy-internal callers, cube I/O, interpolation, MolGrid/AtomGrid constructors with shipped data: see C19 for their caches)"],
+        outside=["entry points the engine cannot execute symbolically (AtomGrid/MolGrid constructors and methods on shipped data, spline interpolation, the real SciPy ODE drivers, Poisson/robust solvers, utils, Coulomb, cubic) are run once concretely on write-protected inputs (68 'concrete/...' jobs: one path each, not a solver obligation)", "cube file I/O"],
         assumptions=["NumPy enforces flags.writeable=False for object arrays", "k-d tree / ODE drivers stubbed where the entry point needs them"])
 
 
